@@ -176,8 +176,27 @@ fn encode_case(rng: &mut Rng, out: &mut CaseOut) {
     if hinted.is_some() {
         out.tag("encode:stated-size-hint");
     }
+    // a fifth of the calls: the shards are sub-slices of one flat buffer that
+    // start at arbitrary (odd) addresses, not separately allocated vectors
+    let flat_off = if rng.chance(1, 5) { Some(rng.range(1, 7)) } else { None };
+    let mut flat: Vec<u8> = Vec::new();
+    let mut spans: Vec<(usize, usize)> = Vec::new();
+    if let Some(off) = flat_off {
+        flat.resize(off, 0x5A);
+        for sh in &shards {
+            spans.push((flat.len(), sh.len()));
+            flat.extend_from_slice(sh);
+            // an odd gap now and then, so that consecutive shards differ in alignment
+            if rng.chance(1, 2) {
+                flat.push(0x5A);
+            }
+        }
+        out.tag("encode:shards-at-odd-addresses");
+    }
     let one = guarded(|| {
-        if let Some(hint) = hinted {
+        if flat_off.is_some() {
+            reed_solomon_simd::encode(k, r, spans.iter().map(|(at, len)| &flat[*at..*at + *len]))
+        } else if let Some(hint) = hinted {
             reed_solomon_simd::encode(k, r, Hinted { inner: cands.iter().filter(|c| c.0).map(|c| c.1), hint })
         } else if decoys > 0 {
             reed_solomon_simd::encode(k, r, cands.iter().filter(|c| c.0).map(|c| c.1))
